@@ -180,14 +180,20 @@ class GradOracle:
         if not np.isfinite(F0):
             res.probe("steps_nonfinite_objective")
             return
-        # cross-check reference vs library score on this very batch (probe only: a wrong library SCORE is C01, not C03)
-        try:
-            lib = float(self.h.sim_gemini.real.evaluate(P, Ab))
-            refv = ref_gemini(self.spec[0], self.spec[1], P, Ab)
-            if abs(lib - refv) > 1e-9 * max(1.0, abs(refv)):
-                res.probe("library_score_differs_from_reference")
-        except Exception:
-            pass
+        # cross-check reference vs library score on this very batch.  Where they disagree the library's closed form is
+        # numerically ill-conditioned at this point (e.g. MMD one-vs-all with a cluster holding 1e-6 of the mass: a+c-2b
+        # cancels to exactly 0 and half of the objective is lost in the score AND in the gradient).  That is a matter of
+        # conditioning / of the score (C17, C01), not of which gradient formula is used: the step is counted, not judged.
+        if not self.used_library_score:
+            try:
+                lib = float(self.h.sim_gemini.real.evaluate(P, Ab))
+                refv = ref_gemini(self.spec[0], self.spec[1], P, Ab)
+                if abs(lib - refv) > 1e-5 * max(abs(refv), abs(lib)) + 1e-13:
+                    res.probe("steps_skipped_library_score_ill_conditioned")
+                    return
+            except Exception:
+                res.probe("steps_skipped_score_crosscheck_failed")
+                return
         names = param_names(m, params)
         total = sum(int(np.size(p)) for p in params)
         res.probe("steps_judged")
